@@ -57,7 +57,11 @@ Done == verdict \in {"accept", "reject", "unspecified"}
 EndsBrace(e) == SubSeq(e.src, Len(e.src), Len(e.src)) = "{"
 StartsDelim(e) == SubSeq(e.src, 1, 1) \in {"{", "%"}
 Fuses == \E i \in 1..(Len(seq) - 1) : EndsBrace(seq[i]) /\ StartsDelim(seq[i + 1])
+\* a stray opening delimiter and a later stray closing one of the same kind can enclose what lies between them and form an
+\* element of their own (stray "{{", text, stray "}}" is an output tag): no verdict is claimed for such a text
+Reforms == \E i, j \in 1..Len(seq) : i < j /\ ((seq[i].src = "{{" /\ seq[j].src = "}}") \/ (seq[i].src = "{%" /\ seq[j].src = "%}"))
 Record(joined) == [p |-> "C01", kind |-> "parse", src |-> joined, expect |-> verdict, nt |-> (Len(seq) > 1)]
-Emit == (EmitAll /\ Done) => /\ PrintT(<<"REPLAY", ToJson(IF Fuses THEN [Record(Source) EXCEPT !.expect = "unspecified"] ELSE Record(Source))>>)
-                            /\ (Len(seq) > 1 => PrintT(<<"REPLAY", ToJson(Record(SourceSpaced))>>))
+Emit == (EmitAll /\ Done) => /\ PrintT(<<"REPLAY", ToJson(IF Fuses \/ Reforms THEN [Record(Source) EXCEPT !.expect = "unspecified"] ELSE Record(Source))>>)
+                            /\ (Len(seq) > 1 => PrintT(<<"REPLAY", ToJson(IF Reforms THEN [Record(SourceSpaced) EXCEPT !.expect = "unspecified"]
+                                                                            ELSE Record(SourceSpaced))>>))
 =============================================================================
